@@ -498,6 +498,47 @@ func classify(o *observation, vs []viol) []viol {
 		return false
 	}
 	startOf := map[string]string{hPF: hPS, hVF: hVS, hEF: hES, hRF: hRS}
+	// finishes counts the calls of ext's finish hook; for the resolve phase only
+	// those belonging to ext's idx-th notification.
+	finishes := func(ext int, hook string, idx int) int {
+		lo, hi := 0, int(^uint(0)>>1)
+		if hook == hRF {
+			n := 0
+			for i := range o.calls {
+				c := &o.calls[i]
+				if c.Ext == ext && c.Hook == hRS {
+					if n == idx {
+						lo = c.Enter
+					}
+					if n == idx+1 {
+						hi = c.Enter
+					}
+					n++
+				}
+			}
+		}
+		k := 0
+		for i := range o.calls {
+			c := &o.calls[i]
+			if c.Ext == ext && c.Hook == hook && c.Enter > lo && c.Enter < hi {
+				k++
+			}
+		}
+		return k
+	}
+	// twinKeepsFinish: a later extension with the same name started the phase
+	// too (so its finish function replaced this one in the library's map) and
+	// that one was finished exactly once — the signature of the shared-name
+	// defect and of nothing else.
+	twinKeepsFinish := func(ext int, fin string, idx int) bool {
+		last := -1
+		for j := ext + 1; j < len(spec.Exts); j++ {
+			if spec.Exts[j].Name == spec.Exts[ext].Name && startedBy(j, startOf[fin], idx) {
+				last = j
+			}
+		}
+		return last >= 0 && finishes(last, fin, idx) == 1
+	}
 	out := make([]viol, 0, len(vs))
 	for _, v := range vs {
 		switch {
@@ -513,20 +554,16 @@ func classify(o *observation, vs []viol) []viol {
 				v.Sig = "defect:didstart-panic-skips-other-finish:" + phaseOfFinish(v.Hook)
 				break
 			}
-			for j := v.Ext + 1; j < len(spec.Exts); j++ {
-				if spec.Exts[j].Name == spec.Exts[v.Ext].Name && startedBy(j, st, 0) {
-					v.Sig = "defect:same-name-finish-lost:" + phaseOfFinish(v.Hook)
-				}
+			if twinKeepsFinish(v.Ext, v.Hook, 0) {
+				v.Sig = "defect:same-name-finish-lost:" + phaseOfFinish(v.Hook)
 			}
 		case v.Kind == "balance" && v.N == 0 && v.Hook == hRF:
 			if v.Aux {
 				v.Sig = "defect:resolver-panic-skips-resolve-finish"
 				break
 			}
-			for j := v.Ext + 1; j < len(spec.Exts); j++ {
-				if spec.Exts[j].Name == spec.Exts[v.Ext].Name && startedBy(j, hRS, v.Idx) {
-					v.Sig = "defect:same-name-finish-lost:resolve"
-				}
+			if twinKeepsFinish(v.Ext, hRF, v.Idx) {
+				v.Sig = "defect:same-name-finish-lost:resolve"
 			}
 		case v.Kind == "unattributed" && spec.Doc.RootNull && (v.Hook == hRS || v.Hook == hRF):
 			v.Sig = "defect:hook-error-dropped-by-toplevel-recover"
